@@ -153,10 +153,11 @@ def Known_SwiftKeywordNotEscaped (it : RustItem) : Bool :=
   (fieldsOf it).any fun f => [s%"var", s%"let", s%"inout"].contains (Swift.removeDash f.id.renamed)
 
 /-- **swift-case-name-not-identifier**: a variant whose camel-cased name is empty, or (unit enums,
-where no `_` is put in front) starts with a digit -/
-def Known_SwiftCaseName : RustItem → Bool
+where no `_` is put in front) starts with a digit (neither depends on the Unicode tables `U` that
+`to_camel_case` consults since the `fix:` commit 8f4a2d5: they only decide the case of later letters) -/
+def Known_SwiftCaseName (U : UnicodeOps) : RustItem → Bool
   | .enum e => e.variants.any fun v =>
-      match Rename.toCamel v.id.original with
+      match Rename.toCamel U v.id.original with
       | [] => true
       | c :: _ => e.keys.isNone && Str.isAsciiDigit c
   | _ => false
@@ -255,9 +256,9 @@ theorem swift_init_label_raw :
 
 /-- a unit enum's variant `_1` is declared as `case 1 = "_1"` -/
 theorem swift_unit_case_digit :
-    Swift.renderUnitCase UnicodeOps.ascii (Swift.unitCase (.unit ⟨s%"_1", s%"_1", false⟩ [])) = s%"\tcase 1 = \"_1\"\n" := by
+    Swift.renderUnitCase UnicodeOps.ascii (Swift.unitCase .ascii (.unit ⟨s%"_1", s%"_1", false⟩ [])) = s%"\tcase 1 = \"_1\"\n" := by
   decide
-example : Known_SwiftCaseName (.enum digitUnitEnum) = true := by decide
+example : Known_SwiftCaseName .ascii (.enum digitUnitEnum) = true := by decide
 
 def keywordTagVariant : Python.PyVariant :=
   { className := s%"EA"
@@ -468,8 +469,8 @@ theorem C10_go_alias (U : UnicodeOps) (cfg : Go.Cfg) (H : C10Go.CfgOk cfg) (a : 
   rw [e] at hs
   exact (C10Go.writeAlias_nb U H a hs st text st' h).wb
 
-theorem C10_go_const (cfg : Go.Cfg) (H : C10Go.CfgOk cfg) (c : RustConst) (hc : ConstScope c) (st : Go.Imports)
-    (text : Str) (st' : Go.Imports) (h : Go.writeConst cfg c st = .ok (text, st')) : wellBracketed C10Go.G text = true :=
+theorem C10_go_const (U : UnicodeOps) (cfg : Go.Cfg) (H : C10Go.CfgOk cfg) (c : RustConst) (hc : ConstScope c) (st : Go.Imports)
+    (text : Str) (st' : Go.Imports) (h : Go.writeConst U cfg c st = .ok (text, st')) : wellBracketed C10Go.G text = true :=
   (C10Go.writeConst_nb H c hc st text st' h).wb
 
 theorem C10_go_alg_enum_facts (e : Go.GoAlgEnum) (he : C10Go.AlgEnumOk e) :
@@ -493,12 +494,12 @@ theorem C10_python_rename (E : Ext) (name : Str) : Python.keywords.contains (Pyt
   C10Kw.python_rename_not_keyword E name
 
 /-- **leading digits**: the variant names of algebraic enums in Kotlin, Scala and Swift -/
-theorem C10_kotlin_digit (s : Str) (c : Char) (r : Str) (h : Kotlin.variantName s = c :: r) : Str.isAsciiDigit c = false :=
-  C10Kw.kotlin_variantName_head s c r h
+theorem C10_kotlin_digit (U : UnicodeOps) (s : Str) (c : Char) (r : Str) (h : Kotlin.variantName U s = c :: r) : Str.isAsciiDigit c = false :=
+  C10Kw.kotlin_variantName_head U s c r h
 theorem C10_scala_digit (s : Str) (c : Char) (r : Str) (h : Scala.variantName s = c :: r) : Str.isAsciiDigit c = false :=
   C10Kw.scala_variantName_head s c r h
-theorem C10_swift_digit (v : RustEnumVariant) (c : Char) (r : Str) (h : Swift.algebraicCaseName v = c :: r) :
-    Str.isAsciiDigit c = false := C10Kw.swift_algebraicCaseName_head v c r h
+theorem C10_swift_digit (U : UnicodeOps) (v : RustEnumVariant) (c : Char) (r : Str) (h : Swift.algebraicCaseName U v = c :: r) :
+    Str.isAsciiDigit c = false := C10Kw.swift_algebraicCaseName_head U v c r h
 
 /-! ## non-vacuity: concrete inputs that meet the hypotheses -/
 
